@@ -27,7 +27,7 @@ Definition loop_hdrs (pc : lpc) : list hdr :=
 (** headers a learner call has adopted (not the candidates still being verified) *)
 Definition thr_hdrs (t : tpc) : list hdr :=
   match t with
-  | TRun _ _ x _ rest => x :: rest
+  | TRun _ _ x st rest => (match st with SL1 nh => [nh] | _ => [] end) ++ x :: rest
   | THd1 sbj _ => [sbj]
   | _ => []
   end.
@@ -71,7 +71,7 @@ Definition pc_ok (pc : lpc) : Prop :=
   match pc with
   | LReq k _ _ => rk_ok k
   | LApp0 k hs | LApp2 k hs => hs_ok hs /\ ak_ok k
-  | LApp1 k hs nh => hs_ok hs /\ ak_ok k /\ nh = last hs hdr_nil
+  | LApp1 k hs nh => hs_ok hs /\ ak_ok k /\ h_height nh = h_height (last hs hdr_nil)
   | _ => True
   end.
 
@@ -142,6 +142,15 @@ Ltac mem :=
 Lemma rs_append_log hs s y : In y (rs_log (rs_append hs s)) -> In y hs \/ In y (rs_log s).
 Proof. unfold rs_append. cbn. intros H. apply in_app_or in H. destruct H as [H|H]; [left; apply in_rev; exact H|right; exact H]. Qed.
 
+Lemma shim_walk_in c hs nh : shim_walk c hs = Some nh -> In nh hs \/ nh = c.
+Proof.
+  revert c. induction hs as [|a r IH]; intros c Hw.
+  - cbn in Hw. injection Hw as <-. right. reflexivity.
+  - rewrite shim_walk_cons in Hw. destruct (_ && _).
+    + destruct (IH c Hw) as [H|H]; [left; right; exact H|right; exact H].
+    + destruct (_ =? _); [|discriminate]. destruct (IH a Hw) as [H|H]; [left; right; exact H|left; left; symmetry; exact H].
+Qed.
+
 Lemma flow_l a c y :
   pc_ok (c_loop c) -> In y (all_hdrs (l_step a c)) -> In y (all_hdrs c) \/ In y (enters c (EL a)).
 Proof.
@@ -171,13 +180,11 @@ Proof.
     + assert (Hl' : last hs hdr_nil = y -> In y hs) by (intros <-; exact Hl).
       destruct k as [k' to|oto]; intros H; left; mem.
     + (* the new head is the last header of hs *)
-      assert (Hnh : In nh hs).
+      assert (Hnh : In nh hs \/ nh = c_cache c).
       { unfold shim_check in Es. destruct hs as [|h0 r]; [discriminate|].
         destruct (_ <=? _); [|discriminate]. destruct (shim_walk (c_cache c) (h0 :: r)) as [z|] eqn:Ew; [|discriminate].
-        injection Es as <-. clear -Ew. revert Ew. generalize (c_cache c). generalize h0. induction r as [|b r IH]; intros a0 c0 Ew.
-        - cbn in Ew. destruct (_ =? _); [|discriminate]. injection Ew as <-. left. reflexivity.
-        - rewrite shim_walk_cons in Ew. destruct (_ =? _); [|discriminate]. right. apply (IH b a0). exact Ew. }
-      assert (Hnh' : nh = y -> In y hs) by (intros <-; exact Hnh).
+        injection Es as <-. apply shim_walk_in. exact Ew. }
+      assert (Hnh' : nh = y -> In y hs \/ c_cache c = y) by (intros <-; destruct Hnh as [Hn|Hn]; [left; exact Hn|right; symmetry; exact Hn]).
       intros H. left. mem.
   - destruct Hpc as ([Hne _] & _ & Enh). intros H. left. mem.
   - destruct Hpc as [[Hne _] _]. pose proof (in_last hs hdr_nil Hne) as Hl.
@@ -244,19 +251,24 @@ Proof.
     destruct (h_height x <=? h_height sbj); intros H; apply all_hdrs_set_thr in H; cbn in H.
     + left; apply all_hdrs_intro; tauto.
     + destruct H as [H|[H|[H|[H|[[H|[]]|H]]]]]; try (left; apply all_hdrs_intro; tauto). right. left. exact H.
-  - cbn [thr_hdrs] in Hold.
-    assert (Hx : x = y -> In y (flat_map thr_hdrs (c_thr c))) by (intros <-; apply Hold; left; reflexivity).
-    assert (Hr : In y rest -> In y (flat_map thr_hdrs (c_thr c))) by (intros Hy; apply Hold; right; exact Hy).
+  - assert (Hx : x = y -> In y (flat_map thr_hdrs (c_thr c))) by (intros <-; apply Hold; cbn [thr_hdrs]; apply in_or_app; right; left; reflexivity).
+    assert (Hr : In y rest -> In y (flat_map thr_hdrs (c_thr c))) by (intros Hy; apply Hold; cbn [thr_hdrs]; apply in_or_app; right; right; exact Hy).
     assert (Hnext : forall c', In y (all_hdrs (t_next i mu res rest c')) ->
               In y (rs_log (c_store c')) \/ y = c_cache c' \/ In y (ranges_all (c_pend c')) \/ In y (loop_hdrs (c_loop c')) \/
               In y rest \/ In y (flat_map thr_hdrs (c_thr c'))).
     { intros c' H. unfold t_next in H. destruct rest as [|y0 r0]; apply all_hdrs_set_thr in H.
       - destruct mu; cbn in H; tauto.
-      - cbn [thr_hdrs] in H. tauto. }
-    destruct st.
-    + destruct (shim_check (c_cache c) [x]); intros H; apply all_hdrs_set_thr in H; cbn in H; left; apply all_hdrs_intro; tauto.
-    + intros H; apply all_hdrs_set_thr in H; cbn in H. left; apply all_hdrs_intro.
-      destruct H as [H|[H|H]]; try tauto. subst y. right; right; right; right. apply Hx. reflexivity.
+      - cbn in H. simpl In. tauto. }
+    destruct st as [|nh| | | |].
+    + destruct (shim_check (c_cache c) [x]) as [| |nh|] eqn:Es; intros H; apply all_hdrs_set_thr in H; cbn in H; left; apply all_hdrs_intro; try tauto.
+      assert (Hnh : nh = y -> y = c_cache c \/ x = y).
+      { intros <-. unfold shim_check in Es. destruct (_ <=? _); [|discriminate].
+        destruct (shim_walk (c_cache c) [x]) as [z|] eqn:Ew; [|discriminate]. injection Es as <-.
+        destruct (shim_walk_in _ _ _ Ew) as [[E|[]]|E]; [right; exact E|left; exact E]. }
+      tauto.
+    + assert (Hn : nh = y -> In y (flat_map thr_hdrs (c_thr c))) by (intros <-; apply Hold; cbn [thr_hdrs]; apply in_or_app; left; left; reflexivity).
+      intros H; apply all_hdrs_set_thr in H; cbn in H. left; apply all_hdrs_intro.
+      destruct H as [H|[H|H]]; try tauto. subst y. right; right; right; right. apply Hn. reflexivity.
     + intros H; apply all_hdrs_set_thr in H; cbn in H. left; apply all_hdrs_intro.
       destruct H as [H|H]; [|tauto]. apply rs_append_log in H. cbn in H. tauto.
     + destruct (_ <=? _); intros H.
@@ -389,7 +401,7 @@ Variables (drift : Z) (tv : hdr -> hdr -> tvres) (tail : N).
 Definition P (y : hdr) : Prop := tail <= h_height y /\ hok y.
 
 Definition tres (t : tpc) : list hdr :=
-  match t with TRun _ _ x SL1 _ | TRun _ _ x SL2 _ => [x] | _ => [] end.
+  match t with TRun _ _ x (SL1 _) _ | TRun _ _ x SL2 _ => [x] | _ => [] end.
 Definition lres (pc : lpc) : list hdr :=
   match pc with LApp1 _ hs _ | LApp2 _ hs => hs | _ => [] end.
 (** headers whose Store.Append is committed (shim passed) but not yet executed *)
@@ -666,14 +678,28 @@ Proof.
   - right. apply in_map_iff. exists y'. split; [lia|exact Hy'].
 Qed.
 
+Lemma shim_walk_height : forall hs c nh, shim_walk c hs = Some nh -> h_height nh = h_height (last hs c).
+Proof.
+  induction hs as [|a r IH]; intros c nh Hw.
+  - cbn in Hw. injection Hw as <-. reflexivity.
+  - rewrite shim_walk_cons in Hw. rewrite last_cons_default.
+    destruct ((h_height a =? h_height c) && (h_id a =? h_id c)) eqn:Ed.
+    + apply Bool.andb_true_iff in Ed. destruct Ed as [Ed _]. apply N.eqb_eq in Ed.
+      rewrite (IH c nh Hw). destruct r as [|b r']; [cbn; symmetry; exact Ed|]. rewrite (last_indep r' b c a). reflexivity.
+    + destruct (h_height a =? wrap64 (h_height c + 1)); [|discriminate Hw]. apply (IH a nh Hw).
+Qed.
+
 Lemma shim_walk_last c hs nh d :
-  shim_walk c hs = Some nh -> hs <> [] -> nh = last hs d /\ h_height (hd hdr_nil hs) = wrap64 (h_height c + 1).
+  shim_walk c hs = Some nh -> hs <> [] ->
+  h_height nh = h_height (last hs d) /\
+  (h_height (hd hdr_nil hs) = h_height c \/ h_height (hd hdr_nil hs) = wrap64 (h_height c + 1)).
 Proof.
   intros Hw Hne. destruct hs as [|a l]; [contradiction|]. split.
-  - clear Hne. revert c a Hw. induction l as [|b l IH]; intros c a Hw; rewrite shim_walk_cons in Hw; destruct (_ =? _); try discriminate.
-    + cbn in Hw. injection Hw as <-. reflexivity.
-    + change (last (a :: b :: l) d) with (last (b :: l) d). apply (IH a b). exact Hw.
-  - rewrite shim_walk_cons in Hw. destruct (N.eqb_spec (h_height a) (wrap64 (h_height c + 1))); [assumption|discriminate].
+  - rewrite (shim_walk_height _ _ _ Hw). rewrite (last_indep l a c d). reflexivity.
+  - rewrite shim_walk_cons in Hw. cbn [hd].
+    destruct ((h_height a =? h_height c) && (h_id a =? h_id c)) eqn:Ed.
+    + apply Bool.andb_true_iff in Ed. destruct Ed as [Ed _]. apply N.eqb_eq in Ed. left. exact Ed.
+    + destruct (N.eqb_spec (h_height a) (wrap64 (h_height c + 1))); [right; assumption|discriminate].
 Qed.
 
 Lemma cache_P c : Inv c -> P (c_cache c).
@@ -747,6 +773,7 @@ Proof.
       assert (Hw' : shim_walk (c_cache c) hs = Some nh).
       { unfold shim_check in Es. destruct hs as [|h0 r]; [discriminate|]. destruct (_ <=? _); [|discriminate]. destruct (shim_walk _ _); [injection Es as <-; reflexivity|discriminate]. }
       destruct (shim_walk_last _ _ _ hdr_nil Hw' Hne) as [Enh Eh]. rewrite (wrap_succ _ Hck) in Eh.
+      assert (Eh' : h_height (hd hdr_nil hs) <= h_height (c_cache c) + 1) by (destruct Eh; lia).
       split; [cbn; split; [split; assumption|split; [exact Hak|exact Enh]]|].
       assert (Hm : forall n, In n (hts (c <| c_loop := LApp1 k hs nh |>)) <-> In n (hts c) \/ In n (map h_height hs)).
       { intros n. rewrite !in_hts. cbn. rewrite Elp. cbn. tauto. }
@@ -760,7 +787,7 @@ Proof.
     assert (Hm : forall n, In n (hts (c <| c_cache := nh |> <| c_loop := LApp2 k hs |>)) <-> In n (hts c)).
     { intros n. rewrite !in_hts. cbn. rewrite Elp. cbn. tauto. }
     split; [apply (closed_same (hts c)); [apply (i_closed c HI)|exact Hm]|].
-    cbn [c_cache]. cbn. apply Hm. apply in_hts. right. left. rewrite Elp. cbn. apply in_map. rewrite Enh. apply in_last. exact Hne.
+    cbn [c_cache]. cbn. apply Hm. apply in_hts. right. left. rewrite Elp. cbn. rewrite Enh. apply in_map. apply in_last. exact Hne.
   - (* LApp2: the reserved run is written *)
     destruct Hpc as [[Hne Hc] Hak]. unfold after_app.
     assert (Hm : forall pc', lres pc' = [] -> forall n, In n (hts (c <| c_store ::= rs_append hs |> <| c_loop := pc' |>)) <-> In n (hts c)).
